@@ -294,6 +294,23 @@ void hx_forked_side(reproc_t *p, int r)
     vk_violation("C04", "fork-child-result", "h_start|fork", "start returned %d on the forked side", r);
     _exit(0);
   }
+  /* C12 on the forked side: no exec follows that would reset anything, the library has to have done it */
+  {
+    sigset_t cur;
+    sigemptyset(&cur);
+    sigprocmask(SIG_SETMASK, NULL, &cur);
+    for (int sg = 1; sg < 32; sg++) {
+      if (sigismember(&cur, sg)) { vk_violation("C12", "child-mask-empty", "h_start|fork", "the forked side starts with signal %d blocked", sg); break; }
+    }
+    for (int sg = 1; sg < 32; sg++) {
+      struct sigaction act;
+      if (sg == SIGKILL || sg == SIGSTOP || sigaction(sg, NULL, &act) < 0) continue;
+      if (act.sa_handler != SIG_DFL) {
+        vk_violation("C12", "child-dispositions-default", "h_start|fork", "the forked side starts with signal %d %s", sg, act.sa_handler == SIG_IGN ? "ignored" : "still caught by the parent's handler");
+        break;
+      }
+    }
+  }
   uint8_t b[4];
   reproc_stop_actions sa = { { REPROC_STOP_KILL, 0 }, { REPROC_STOP_NOOP, 0 }, { REPROC_STOP_NOOP, 0 } };
   int rs[8];
